@@ -10,6 +10,7 @@ mod oracle_c05;
 mod level_history;
 mod queue_history;
 mod amend_race;
+mod search;
 
 use pricelevel::{OrderId, OrderType, PegReferenceType, Side, TimeInForce};
 use serde::Deserialize;
@@ -74,6 +75,9 @@ pub fn build_order(j: &JOrder) -> Result<OrderType<()>, String> {
     })
 }
 
+/// the history a search is executing right now (so that a hang can be attributed to it)
+pub static CURRENT: std::sync::LazyLock<std::sync::Arc<std::sync::Mutex<Option<serde_json::Value>>>> = std::sync::LazyLock::new(|| std::sync::Arc::new(std::sync::Mutex::new(None)));
+
 #[derive(Default)]
 pub struct Report { pub lines: Vec<String> }
 impl Report {
@@ -99,6 +103,7 @@ fn run(v: serde_json::Value) -> Result<Report, String> {
         "level_history" => level_history::run(&v, &mut rep)?,
         "queue_history" => queue_history::run(&v, &mut rep)?,
         "amend_race" => amend_race::run(&v, &mut rep)?,
+        "search" => search::run(&v, &mut rep)?,
         k => return Err(format!("unknown kind {k}")),
     }
     Ok(rep)
@@ -121,6 +126,7 @@ fn main() {
         Ok(Err(e)) => { eprintln!("replay error: {e}"); std::process::exit(2); }
         Err(_) => {
             println!("REPLAY-VIOLATION property=C06 clause=match_order.terminates the replayed history did not return within {timeout}s (the call is still spinning)");
+            if let Ok(g) = CURRENT.try_lock() { if let Some(h) = g.as_ref() { println!("REPLAY-FOUND {h}"); } }
             std::process::exit(1);
         }
     }
